@@ -197,6 +197,10 @@ def _lead_negative(p):
     return c < 0
 
 
+def _nzc(c):
+    return c.numerator if isinstance(c, Fraction) and c.denominator == 1 else c
+
+
 def _exact_sqrt(c):
     if c < 0:
         return None
@@ -281,17 +285,27 @@ def un(name, p):
                 h = un("sqrt", x * x + y * y)
                 return pdiv(y, h) if name == "sin" else pdiv(x, h)
     if name in ("sin", "cos"):
-        # shift identities: strip k*pi/2 from the argument (exact)
+        # shift identities: strip k*pi/2 from the argument (exact); pure constants are folded into [0, pi/4]
         pia = PI_POLY.single_atom()
         mono = ((pia, 1),)
         c = p.t.get(mono)
-        if c is not None and (2 * c) == int(2 * c):
-            k = int(2 * c) % 4
-            rest = p - Poly({mono: c})
-            s_, c_ = un("sin", rest), un("cos", rest)
-            if name == "sin":
-                return (s_, c_, -s_, -c_)[k]
-            return (c_, -s_, -c_, s_)[k]
+        if c is not None:
+            c = Fraction(c)
+            k = (2 * c).__floor__()
+            r = c - Fraction(k, 2)
+            if k != 0:
+                rest = p - Poly({mono: _nzc(c)}) + (Poly({mono: _nzc(r)}) if r != 0 else Poly())
+                s_, c_ = un("sin", rest), un("cos", rest)
+                k %= 4
+                if name == "sin":
+                    return (s_, c_, -s_, -c_)[k]
+                return (c_, -s_, -c_, s_)[k]
+            if len(p.t) == 1 and Fraction(1, 4) <= c < Fraction(1, 2):
+                # co-function: sin(c pi) = cos((1/2 - c) pi), cos(c pi) = sin((1/2 - c) pi), then fold again
+                q = Poly({mono: _nzc(Fraction(1, 2) - c)})
+                if c == Fraction(1, 4):
+                    return opaque("sqrt", Poly.const(Fraction(1, 2)))      # sin(pi/4) = cos(pi/4) = sqrt(1/2)
+                return un("cos" if name == "sin" else "sin", q)
     if name == "acos" and _lead_negative(p):
         # acos(-u) = pi - acos(u)
         return PI_POLY - opaque("acos", -p)
